@@ -90,6 +90,9 @@ def gen(tier, seed):
     add(dataset(rng, 1025, 2, 0, 3, True, False, shift=5), wide=True, label="EFIT", time="t = 1500")
     add(dataset(rng, 12, 7, 1, 1, False, True, shift=6), time="  250")
     add(dataset(rng, 7, 12, 1, 1, False, True, shift=7), shot=77, time="99")
+    # two- and three-digit boundary / limiter counts, each alone and together (seeded change C17_regex_single_leading_digit)
+    for n, (nb, nl) in enumerate([(10, 0), (0, 12), (12, 10), (100, 3), (4, 101)]):
+        add(dataset(rng, 4 + n, 3, nb, nl, n % 2 == 0, n % 2 == 1, shift=8 + n))
     return sets
 
 
